@@ -370,7 +370,9 @@ def run(chk):
             chk.tie_broken("model:follow", f"the executable model does not return psivals order on the generated cases: {(oq + eq)[-500:]}")
     nr = refine_correspondence(chk, 400 if chk.tier == "quick" else 3000)
     nr += pin_oracle(chk)
-    grids = corpus.get(tier=chk.tier)
+    # an upper disconnected double null whose inboard and outboard SOL limits differ (C01 only): the SOL segments of inner and outer regions have different psi grids
+    extra = [corpus.tok("udn_solin", "udn", corpus.DN, options=dict(psinorm_sol_inner=1.1), must_build=True)]
+    grids = corpus.get(tier=chk.tier, extra_cfgs=extra)
     n = grid_oracle(chk, grids, info)
     chk.count(evaluations=len(cases) + n + nr, distinct=nf + n + nr)
     chk.cov["rule"] = "followPerpendicular: random strictly monotone psivals (both directions, list or array) with psi0 at an end / inside / outside; grids: every point of every region at the four staggered locations"
